@@ -69,7 +69,7 @@ func OracleC07(r *SeqRun) []explore.Violation {
 	// the key's oldest holder instead of honouring the request's own flag (listed known finding)
 	joined := map[holdKey]bool{}
 	updFresh := false
-	updExisting := map[holdKey]bool{} // holds whose terms were changed by a LOCK with the update flag
+	updExisting := map[holdKey]bool{}    // holds whose terms were changed by a LOCK with the update flag
 	firstDeadline := map[holdKey]int64{} // virtual instant at which the first record of a hold expires by its own terms
 	var stopT int64
 	var prev *hapi.Snapshot
